@@ -6,7 +6,7 @@ From BV Require Import Base.Prelude Model.Block Model.ForkDB Model.Forkable Mode
   Spec.C01_Spec Spec.C01_Moving_Spec Spec.C05_History_Spec
   Proofs.Fk.StoreFacts Proofs.Fk.WalkFacts Proofs.Fk.LoopFacts Proofs.Fk.FixedLib
   Proofs.Fk.MovingLibInv Proofs.Fk.MovingLibFin Proofs.Fk.MovingLibDisc Proofs.C02_Proofs Spec.C01_Roots_Spec Proofs.C01_Roots_Proofs
-  Proofs.Hub.StepFields Proofs.Hub.ConsFacts Proofs.Hub.HubInv Proofs.Hub.HubRun Proofs.Hub.LinkedRuns Proofs.Hub.CursorLife.
+  Proofs.Hub.StepFields Proofs.Hub.ConsFacts Proofs.Hub.StepStore Proofs.Hub.Retention Proofs.Hub.HubInv Proofs.Hub.HubRun Proofs.Hub.LinkedRuns Proofs.Hub.CursorLife.
 Local Open Scope N_scope.
 
 Lemma firstn_in {A} (l : list A) n x : In x (firstn n l) -> In x l.
@@ -61,12 +61,13 @@ Section History.
   Lemma locate k m ek :
     nth_error (concat (map fst (firstn (length tr) tr))) k = Some ek -> nu ek ->
     (k < length (concat (map fst (firstn m tr))))%nat ->
-    exists a Fin S c ck0 P Q F0,
+    exists a Fin S c ck0 P Q F0 B0,
       Post h cfg a (state_after cfg s0 h m) Fin S c /\
       cons_fold cons0 (concat (map fst (firstn m tr))) = Some c /\
       cons_fold cons0 (firstn (Datatypes.S k) (concat (map fst (firstn (length tr) tr)))) = Some ck0 /\
       CurAt h a ek ck0 P Q (libblk a P) /\ Fin = P ++ F0 /\
-      linked (bid (libblk a P)) F0 /\ Forall (fun x => In x h /\ bnum (libblk a P) < bnum x) F0.
+      linked (bid (libblk a P)) F0 /\ Forall (fun x => In x h /\ bnum (libblk a P) < bnum x) F0 /\
+      Held B0 ek Q (libblk a P) /\ Ret B0 (state_after cfg s0 h m).
   Proof.
     intros Hk Hnu Hlt.
     destruct (hist_upto m) as (sm & HR & Hsm & HEm & HPh). rewrite HEm in Hlt |- *. subst sm.
@@ -81,9 +82,10 @@ Section History.
     destruct (nth_split_firstn Em k ek Hk) as [HsplitE Hfirst]. rewrite Hfirst.
     destruct HPh as [[_ HE0]|(a & Fin & S & c & HP & Hc & HM & _)].
     { rewrite HE0 in Hlt. cbn in Hlt. lia. }
-    destruct (HM (firstn k Em) ek (skipn (Datatypes.S k) Em) HsplitE Hnu) as (ck0 & P & Q & F0 & Hck & HC & HF & Hl0 & HF0).
-    exists a, Fin, S, c, ck0, P, Q, F0.
-    split; [exact HP|]. split; [exact Hc|]. split; [exact Hck|]. split; [exact HC|]. split; [exact HF|]. split; [exact Hl0 | exact HF0].
+    destruct (HM (firstn k Em) ek (skipn (Datatypes.S k) Em) HsplitE Hnu) as (ck0 & P & Q & F0 & B0 & Hck & HC & HF & Hl0 & HF0 & HH & HRt).
+    exists a, Fin, S, c, ck0, P, Q, F0, B0.
+    split; [exact HP|]. split; [exact Hc|]. split; [exact Hck|]. split; [exact HC|]. split; [exact HF|]. split; [exact Hl0|].
+    split; [exact HF0|]. split; [exact HH | exact HRt].
   Qed.
 
   Lemma resume_history_proof k m ek ck cm evs :
@@ -95,7 +97,7 @@ Section History.
     cons_fold (mkCons (cs_stack ck) (length (filter (fun b => bnum b <=? rn (elib ek)) (cs_stack ck))) true) evs = Some cm.
   Proof.
     intros Hk Hnu Hlt Hck Hcm HB.
-    destruct (locate k m ek Hk Hnu Hlt) as (a & Fin & S & c & ck0 & P & Q & F0 & HP & Hc & Hck0 & HC & HF & Hl0 & HF0).
+    destruct (locate k m ek Hk Hnu Hlt) as (a & Fin & S & c & ck0 & P & Q & F0 & B0 & HP & Hc & Hck0 & HC & HF & Hl0 & HF0 & HH & HRt).
     rewrite Hck in Hck0. injection Hck0 as <-. rewrite Hcm in Hc. injection Hc as <-.
     rewrite (resume_at h cfg Hid Huniq Hup a _ Fin S cm HP ek ck P Q F0 evs HC HF Hl0 HF0 Hnu HB).
     rewrite (po_cons h cfg _ _ _ _ _ HP). reflexivity.
@@ -114,12 +116,25 @@ Section History.
       ecblk ek = bref (eblk ek) /\ In (eblk ek) h.
   Proof.
     intros Hk Hnu Hlt Hck Hls E Hlibin.
-    destruct (locate k m ek Hk Hnu Hlt) as (a & Fin & S & c & ck0 & P & Q & F0 & HP & Hc & Hck0 & HC & HF & Hl0 & HF0).
+    destruct (locate k m ek Hk Hnu Hlt) as (a & Fin & S & c & ck0 & P & Q & F0 & B0 & HP & Hc & Hck0 & HC & HF & Hl0 & HF0 & HH & HRt).
     rewrite Hck in Hck0. injection Hck0 as <-.
     exists c, P, Q. split; [exact Hc|]. rewrite (po_cons h cfg _ _ _ _ _ HP). cbn [cs_any cs_stack cs_nf].
     split; [reflexivity|]. split.
     - exact (cursor_meets h cfg Hid Huniq Hup a _ Fin S _ HP ek ck P Q F0 hd sg HC HF Hl0 HF0 Hnu Hls E Hlibin).
     - split; [exact (ca_cblk h a ek ck P Q _ HC) | exact (ca_blk h a ek ck P Q _ HC)].
+  Qed.
+
+  Lemma serves_history_proof k m ek hd sg :
+    nth_error (concat (map fst (firstn (length tr) tr))) k = Some ek -> (estep ek = SNew \/ estep ek = SUndo) ->
+    (k < length (concat (map fst (firstn m tr))))%nat ->
+    last_sent (state_after cfg s0 h m) = Some hd ->
+    complete_segment (db (state_after cfg s0 h m)) (bref hd) = Some (sg, true) ->
+    block_in (ri (elib ek)) sg = true ->
+    exists evs, blocks_from_cursor (state_after cfg s0 h m) (ev_cursor ek) = BOk evs.
+  Proof.
+    intros Hk Hnu Hlt Hls E Hlibin.
+    destruct (locate k m ek Hk Hnu Hlt) as (a & Fin & S & c & ck0 & P & Q & F0 & B0 & HP & Hc & Hck0 & HC & HF & Hl0 & HF0 & HH & HRt).
+    exact (serve_at h cfg Hid Huniq Hup a _ Fin S c HP ek ck0 P Q F0 B0 hd sg HC HF Hl0 HF0 Hnu HH HRt Hls E Hlibin).
   Qed.
 
   Lemma total_history_proof :
@@ -167,4 +182,10 @@ Lemma c05_cursor_meets_hypotheses_proof : C05_cursor_meets_hypotheses.
 Proof.
   intros first kept h k m ek ck hd sg Hwf Hok cfg tr upto s Hk Hnu Hlt Hck Hls E Hlibin.
   exact (meets_history_proof first kept h Hwf Hok k m ek ck hd sg Hk Hnu Hlt Hck Hls E Hlibin).
+Qed.
+
+Lemma c05_serves_history_proof : C05_serves_history.
+Proof.
+  intros first kept h k m ek hd sg Hwf Hok cfg tr upto s Hk Hnu Hlt Hls E Hlibin.
+  exact (serves_history_proof first kept h Hwf Hok k m ek hd sg Hk Hnu Hlt Hls E Hlibin).
 Qed.
